@@ -571,7 +571,7 @@ class Editor(Task):
             else:
                 a["val"] = Editor.coef_val(g, side, "c")
             return {"k": "bc_edit", "a": a}
-        pbias = 0.3 if g.sw["periodic_bias"] else 0.08
+        pbias = (0.45 if g.prop == "C03" else 0.3) if g.sw["periodic_bias"] else 0.08
         if u < pbias:
             radial_ok = "radial_periodic" in g.sw["faults"]
             cand = [s for s in sides
